@@ -87,4 +87,7 @@ AnsweredAtBarrier == search.st = "none" => owed = 0
 AtMostOneDue == owed <= 1
 CleanAfterNewGame == ~stale
 ReadyAlways == alive => ENABLED IsReady \/ n >= MaxCmds
+\* liveness: under fairness of the search's own completion every owed bestmove is eventually printed
+FairSpec == Init /\ [][Next]_vars /\ WF_vars(SearchFinish)
+EventuallyAnswered == [](owed > 0 => <>(owed = 0))
 =============================================================================
